@@ -48,6 +48,17 @@ theorem invoke_world (env : Env) (c : Cpi) (s : St) :
       · left; exact ⟨by simp, rfl⟩
       · rename_i h; right; exact ⟨rfl, h⟩
 
+/-- A System-program error answered by a CPI is the error of the System instruction itself. -/
+theorem invoke_err_sys {env : Env} {c : Cpi} {s : St} {e : SysErr}
+    (h : (invoke env c s).1 = .err (.sys e)) : sys c.ix c.ix.metaSigners s.w = .error e := by
+  unfold invoke at h
+  simp only [] at h
+  split at h; · cases h
+  split at h; · cases h
+  split at h
+  · rename_i e' he; injection h with h; injection h with h; rw [← h]; exact he
+  · cases h
+
 theorem invoke_ok {env : Env} {c : Cpi} {s : St} (h : (invoke env c s).1 = .ok ()) :
     sys c.ix c.ix.metaSigners s.w = .ok (invoke env c s).2.w := by
   rcases invoke_world env c s with ⟨h1, _⟩ | ⟨_, h2⟩
